@@ -46,7 +46,7 @@ def register(reg):
     reg.names['file_exists'] = FnSpec('file_exists', params=[('p', ANY)], ret=BOOL, pure=True, assumed=True,
                                       note='ghost: the path exists at the time of the call')
 
-CONTRACTS = [_mc_add, _mc_get, _c12._get_module_info]
+CONTRACTS = [_mc_add, _mc_get, _c12._get_module_info, _c08._sig_key]
 
 
 def _replay_mtime(inp):
@@ -168,7 +168,7 @@ def structural_freshness(repo):
     t6 = tree('jedi/api/completion_cache.py')
     s6 = ast.unparse(t6) if t6 else ''
     invalidates = any(w_ in s6 for w_ in ('.clear()', 'del _cache', 'mtime', 'getmtime', 'pop('))
-    out.append({'id': 'completion-cache-coherent', 'kind': 'frame', 'ok': bool(invalidates) if t6 else None,
+    out.append({'id': 'completion-cache-coherent', 'definite': True, 'kind': 'frame', 'ok': bool(invalidates) if t6 else None,
                 'contract': 'C09.completion_cache',
                 'label': 'the completion cache for modules named numpy/tensorflow/matplotlib/pandas is invalidated when '
                          'the module file changes on disk',
